@@ -16,6 +16,7 @@ pub mod c13;
 pub mod c14;
 pub mod c15;
 pub mod c17;
+pub mod c18;
 pub mod c20;
 pub mod common;
 
@@ -36,6 +37,7 @@ pub fn run(id: &str, tier: Tier) -> i32 {
         "C14" => c14::run(tier),
         "C15" => c15::run(tier),
         "C17" => c17::run(tier),
+        "C18" => c18::run(tier),
         "C20" => c20::run(tier),
         _ => machinery(&format!("no check for property {id}")),
     }
@@ -63,6 +65,7 @@ pub fn replay(id: &str, path: &str) -> i32 {
             "C14" => c14::replay(case),
             "C15" => c15::replay(case),
             "C17" => c17::replay(case),
+            "C18" => c18::replay(case),
             "C20" => c20::replay(case),
             _ => machinery(&format!("no replay for property {id}")),
         }
